@@ -109,8 +109,6 @@ def judge(method, cfg, d):
             out.append(("budget", f"nstep={d['nstep']} exceeds max_steps+1={max_steps + 1}"))
         if len(cbs) > max_steps + 2:
             out.append(("budget", f"{len(cbs) - 1} accepted steps with max_steps={max_steps}"))
-    # a rejected trial shrinks the step: compare the first-stage offsets of consecutive trials without a callback in between
-    st, pre = STAGES[method]
     return out
 
 
